@@ -946,12 +946,42 @@ func flowsOnlyTo(v ssa.Value, sinks []*ssa.Function, root *ssa.Function, seen ma
 			if !isSink(x) {
 				return "used by " + describeCallee(x)
 			}
+		case *ssa.Return:
+			// handed back to the callers of a helper (a function that selects / builds the value): follow every call site
+			fn := x.Parent()
+			if fn.Parent() != nil || flowProg == nil || len(x.Results) != 1 {
+				return "used by " + u.String()
+			}
+			sites := 0
+			for _, g := range flowProg.ModuleFuncs() {
+				var bad string
+				allInstrs(g, func(in ssa.Instruction) {
+					if bad != "" || !isCallTo(in, fn) {
+						return
+					}
+					sites++
+					if cv, ok := in.(ssa.Value); ok {
+						bad = flowsOnlyTo(cv, sinks, outermost(g), seen)
+					} else {
+						bad = "result of " + funcName(fn) + " discarded or deferred"
+					}
+				})
+				if bad != "" {
+					return bad
+				}
+			}
+			if sites == 0 {
+				return "returned by " + funcName(fn) + " which has no caller in the module"
+			}
 		default:
 			return "used by " + u.String()
 		}
 	}
 	return ""
 }
+
+// flowProg: the program in which flowsOnlyTo follows values returned from helpers to their call sites.
+var flowProg *Program
 
 func cellLoadsFlow(addr ssa.Value, sinks []*ssa.Function, root *ssa.Function, seen map[ssa.Value]bool) string {
 	if seen[addr] {
